@@ -770,15 +770,14 @@ func (c *Ctx) queueIndexRules() {
 						stored[p.Fields[0]] = in
 					}
 				case *ssa.MapUpdate:
-					p := ir.PathOf(x.Map)
-					if p.Class() == "sessions.Ackqueue.emap" {
+					if isIndexMap(x.Map) {
 						stored["emap"] = in
 						nUpd++
 						c.checkIndexUpdate(fn, x)
 					}
 				case *ssa.Call:
 					if bi, ok := x.Common().Value.(*ssa.Builtin); ok && bi.Name() == "delete" {
-						if ir.PathOf(x.Common().Args[0]).Class() == "sessions.Ackqueue.emap" {
+						if isIndexMap(x.Common().Args[0]) {
 							stored["emap"] = in
 							nUpd++
 							c.checkIndexDelete(fn, x)
@@ -1035,4 +1034,21 @@ func (c *Ctx) checkIndexDelete(fn *ssa.Function, del *ssa.Call) {
 		}
 	}
 	c.R.Check(bad == "", ruleT5, key, c.P.InstrPos(del), "the id removed is ring[head].Pktid read before the slot is cleared and the head advanced", bad+": a different (or the zero) identifier is removed and the released one stays in the index")
+}
+
+// isIndexMap: v is the queue's index map: a load of Ackqueue.emap, or the map value that the function stores into
+// that field (`emap := make(...); aq.emap = emap`).
+func isIndexMap(v ssa.Value) bool {
+	if ir.PathOf(v).Class() == "sessions.Ackqueue.emap" {
+		return true
+	}
+	obj := ir.SeeThrough(v)
+	if refs := obj.Referrers(); refs != nil {
+		for _, ref := range *refs {
+			if st, ok := ref.(*ssa.Store); ok && st.Val == obj && ir.PathOf(st.Addr).Class() == "sessions.Ackqueue.emap" {
+				return true
+			}
+		}
+	}
+	return false
 }
